@@ -307,6 +307,10 @@ class Equalizer(object):
         """
         Creates and start new player process, ready to take playback tasks
         """
+        # Every process gets its own queues, a process that was killed may have left a late result behind or may have
+        # died while holding one of the queue locks
+        self._compare_tasks = mp.Queue()
+        self._compare_results = mp.Queue()
         self._compare_process = mp.Process(
             target=self._playback_process_target, name='Playback runner')
         self._compare_process.start()
